@@ -1579,11 +1579,40 @@ def m_call_fn(I, st, fr, t, args, name):
 
 def m_matches_eq(I, st, fr, t, args, name):
     """PartialEq::eq / ne between two values: structural when both are known aggregates/constants"""
+    if name in I.f.bodies:
+        return NotImplemented          # a crate impl (derived PartialEq of a crate type): interpreted
+    a0 = _opt_variant(I, st, args[0])
+    if name.endswith('::ne') and isinstance(a0, Agg) and a0.adt in I.f.adts:
+        # the provided `ne` of a crate type: !eq, with the crate's (derived) eq interpreted
+        eqp = f"<{a0.adt} as std::cmp::PartialEq>::eq"
+        if eqp in I.f.bodies:
+            def cont(s3, caller, rv):
+                rv = I.resolve(s3, rv)
+                if isinstance(rv, Const):
+                    I.write_place(s3, caller, t['dest'], Const(not rv.v))
+                    I.goto(s3, caller, t['target'])
+                    return None
+                raise Undecided(f"{eqp} returned {rv!r}")
+            I.push_frame(st, eqp, [args[0], args[1]], cont)
+            I.work.append(st)
+            return CONSUMED
     a = _opt_variant(I, st, args[0])
     b = _opt_variant(I, st, args[1])
     a = _opt_variant(I, st, a)
     b = _opt_variant(I, st, b)
     neg = name.endswith('::ne')
+    if isinstance(a, Agg) and isinstance(b, Agg) and not a.fields and not b.fields:
+        return Const((a.variant == b.variant) != neg)
+    # two known variants of the same enum (Option<u32> fields of a derived PartialEq): different variants are unequal, equal
+    # single-payload variants compare their payloads
+    for _ in range(3):
+        if isinstance(a, Agg) and isinstance(b, Agg) and a.adt == b.adt and a.variant is not None and b.variant is not None:
+            if a.variant != b.variant:
+                return Const(neg)
+            if len(a.fields) == 1 and len(b.fields) == 1:
+                a, b = _opt_variant(I, st, a.fields[0]), _opt_variant(I, st, b.fields[0])
+                continue
+        break
     if isinstance(a, Agg) and isinstance(b, Agg) and not a.fields and not b.fields:
         return Const((a.variant == b.variant) != neg)
     if isinstance(a, Const) and isinstance(b, Const):
